@@ -468,7 +468,7 @@ def some_plain(E, rng, maxlen):
     return rng.randbytes(n), "random"
 
 
-def made_input(E, rng, cdir, maxlen=200000, multiblock=False):
+def made_input(E, rng, cdir, maxlen=200000, multiblock=False, force_mt=False):
     """(bytes, suffix, descr) of a valid file made by the rel xz."""
     plain, pk = some_plain(E, rng, maxlen)
     args = [rng.choice(["-0", "-1", "-2", "-6"])]
@@ -481,7 +481,7 @@ def made_input(E, rng, cdir, maxlen=200000, multiblock=False):
             args.append("--check=" + rng.choice(["none", "crc32", "crc64", "sha256"]))
         if multiblock or rng.random() < 0.5:
             args.append("--block-size=%d" % rng.choice([4096, E.B, 3 * E.B + 1, 65536, max(4096, len(plain) // 5)]))
-            args.append(rng.choice(["-T1", "-T2", "-T4"]))
+            args.append(rng.choice(["-T2", "-T4"]) if force_mt else rng.choice(["-T1", "-T2", "-T4"]))
     return compress(E, plain, args, cdir, "plain.tmp"), suffix, "xz %s of %s(%d)" % (" ".join(args), pk, len(plain))
 
 
@@ -673,10 +673,25 @@ def case_sinks(E, R, idx, rng, cdir):
 
 def case_threads(E, R, idx, rng, cdir):
     big = E.tier == "thorough" and rng.random() < 0.2
-    data, suffix, descr = made_input(E, rng, cdir, maxlen=3000000 if big else 500000, multiblock=True)
+    early = rng.random() < 0.4
+    if early:
+        # half incompressible, so that the compressed file is long: many sized Blocks, much input behind the damage
+        n = rng.randint(150000, 600000)
+        plain = b"".join(rng.randbytes(4096) if rng.random() < 0.5 else M.text(rng, 4096) for _ in range(n // 4096 + 1))[:n]
+        args = ["-0", rng.choice(["-T2", "-T4"]), "--block-size=%d" % rng.choice([16384, 32768, 65536])]
+        data, suffix, descr = compress(E, plain, args, cdir, "plain.tmp"), ".xz", "xz %s of mixed(%d)" % (" ".join(args), n)
+    else:
+        data, suffix, descr = made_input(E, rng, cdir, maxlen=3000000 if big else 500000, multiblock=True)
     cls = "valid"
     r = rng.random()
-    if r < 0.3:
+    if early and len(data) > 40000:
+        # damage in the first third of a file whose Block Headers carry sizes: the threaded decoder finds the error
+        # while workers of earlier Blocks are busy and a lot of input is still unread
+        pos = rng.randrange(12, len(data) // 3)
+        data = data[:pos] + bytes([data[pos] ^ (1 << rng.randrange(8))]) + data[pos + 1:]
+        cls, descr = "corrupt", descr + " + bit flip at %d (first third)" % pos
+        R.count("threads_cases_early_damage")
+    elif r < 0.3:
         data, cls, descr = M.bitflip(rng, data), "corrupt", descr + " + bit flip(s)"
     elif r < 0.5:
         data = M.truncate(rng, data)
